@@ -223,6 +223,13 @@ func XML(t *simkit.Tape, o *simkit.Outcome, full bool) {
 			o.Probe("corruption-still-decodable")
 		}
 	}
+	// 6. two parsers alive with interleaved Pull calls
+	if t.Bool(1, 3) && (cfg.Encoding == "" || cfg.Encoding == "UTF-8") {
+		cfg2 := model.DrawXMLConfig(t)
+		cfg2.Encoding = ""
+		other := model.SerialiseXML(t, cfg2, model.GenXML(t, cfg2)).Bytes
+		interleavedParsers(t, o, P, "xml", data, other)
+	}
 	o.NonTrivial = nNodes >= 3 && inside > 0
 	o.Fingerprint = simkit.Hash64(string(data))
 }
